@@ -35,7 +35,11 @@ def make(kind, kw, n_ft, noise, feats, seed, instance_name=None):
     if feats:
         df = df.rename(columns={f"f{k}": feats[k] for k in range(n_ft)})
     extra = {}
-    if noise == "model-default":
+    if noise == "bernoulli":
+        cols = [c for c in df.columns if c not in ("ID", "TIME")]
+        df[cols] = (df[cols] > 0.5).astype(float).where(df[cols].notna())      # binary observations (missing ones stay missing)
+        extra["obs_models"] = "bernoulli"
+    elif noise == "model-default":
         pass          # the model kind fixes its own observation model (mixture)
     elif noise == "gaussian-diagonal":
         extra["obs_models"] = observation_model_factory(noise, dimension=n_ft)
@@ -113,6 +117,9 @@ def standin_save_load(tier, seed):
         for q, (kind, kw, n_ft, noise, feats) in enumerate(CONFIGS if tier == "thorough" else CONFIGS[:4] + CONFIGS[5:]):
             cases.append((kind, kw, n_ft, noise, feats, None, "fit"))
         cases.append(("mixture_logistic", dict(source_dimension=2, n_clusters=2, dimension=3), 3, "model-default", None, None, "fit"))
+        # a noise model other than the Gaussian ones: the observation model is part of what is saved and restored
+        cases.append(("logistic", dict(source_dimension=1), 3, "bernoulli", None, None, "fit"))
+        cases.append(("logistic", dict(), 1, "bernoulli", ["y"], None, "fit"))
         cases.append(("logistic", dict(source_dimension=1), 2, "gaussian-scalar", None, "my_model", "fit"))
         cases.append(("linear", dict(source_dimension=1), 3, "gaussian-scalar", None, "Linear study #2", "fit"))
         cases.append(("logistic", dict(source_dimension=2), 3, "gaussian-scalar", None, None, "hand"))
